@@ -122,6 +122,24 @@ def run(ctx, chk, tier):
     run_sortedness(ctx, chk, tier)
 
 
+def value_root(v):
+    """Like storage_root, but also through value-preserving copies (copy, astype(float)); a cast to any other dtype is not value-preserving."""
+    for _ in range(50):
+        if isinstance(v, App) and v.fn == "fresh" and v.kwd("dtype") in (None, Const("float")):
+            v = v.args[0]
+            continue
+        r = storage_root(v)
+        if r is not None:
+            return r
+        if isinstance(v, App) and v.fn in ("getitem", "reshape", "asarray") and v.args:
+            inner = v.args[0]
+            if isinstance(inner, App) and inner.fn == "fresh" and inner.kwd("dtype") in (None, Const("float")):
+                v = App(v.fn, (inner.args[0],) + tuple(v.args[1:]), v.kw)
+                continue
+        return None
+    return None
+
+
 def _cmp_relation(term, s_root, t_root):
     """Decode a comparison term over broadcast views of scores (S) and threshold (T) into 'S op T'."""
     if not isinstance(term, App) or term.fn not in ("lt0", "le0"):
@@ -131,7 +149,7 @@ def _cmp_relation(term, s_root, t_root):
     for m, c in p.t.items():
         if len(m) != 1 or m[0][1] != 1:
             return None
-        r = storage_root(m[0][0])
+        r = value_root(m[0][0])
         if r == s_root:
             coef["S"] = c
         elif r == t_root:
